@@ -59,6 +59,13 @@ const otherPublicName = "other-public.example"
 
 // runSplit hands the key list over in two WithKeys options split at index split (-1: a single option).
 func runSplit(keys []ech.Key, target echx.KeyPair, aead uint16, retry bool, split int, variant string) (outcome string, panicked any) {
+	outcome, _, panicked = runSplitSent(keys, target, aead, retry, split, variant)
+	return outcome, panicked
+}
+
+// runSplitSent is runSplit that also returns the hello records the client sent (round 13: the histories compare outcomes
+// across key pairs of different labels, see keyFree).
+func runSplitSent(keys []ech.Key, target echx.KeyPair, aead uint16, retry bool, split int, variant string) (outcome string, sent [][]byte, panicked any) {
 	s1 := spec(target, aead, 32)
 	if variant == "sni-of-another-key" {
 		for i, e := range s1.Outer.Exts {
@@ -92,29 +99,30 @@ func runSplit(keys []ech.Key, target echx.KeyPair, aead uint16, retry bool, spli
 		}
 	}()
 	firstFlight := b1.Outer.Record()
+	sent = append(sent, firstFlight)
 	if len(firstFlight) > 5+16384 {
 		firstFlight = tlsref.FragmentMax(0x0301, b1.Outer.Msg())
 	}
 	sess, err, p := echx.OpenSessionSplit(firstFlight, keys, split)
 	if p != nil {
-		return "", p
+		return "", sent, p
 	}
 	if sess.CallerKeysModified {
-		return "CALLER-SLICE-MODIFIED", nil
+		return "CALLER-SLICE-MODIFIED", sent, nil
 	}
 	if err != nil {
-		return "newconn-error:" + echx.ErrClass(err), nil
+		return "newconn-error:" + echx.ErrClass(err), sent, nil
 	}
 	first, rerr, p := sess.ReadOnce()
 	if p != nil {
-		return "", p
+		return "", sent, p
 	}
 	out := fmt.Sprintf("accepted=%v first=%x err=%v", sess.C.ECHAccepted(), first[3:], rerr)
 	if !retry {
-		return out, nil
+		return out, sent, nil
 	}
 	if _, err, p := sess.BackendSend(echx.HRRRecord(b1.Outer.SessionID)); p != nil || err != nil {
-		return out + fmt.Sprintf(" hrr-write-error=%v", err), p
+		return out + fmt.Sprintf(" hrr-write-error=%v", err), sent, p
 	}
 	if split < 0 {
 		// the server rotates its key slice in place once the connection is set up: the Conn works on its own copy of the list
@@ -135,15 +143,16 @@ func runSplit(keys []ech.Key, target echx.KeyPair, aead uint16, retry bool, spli
 		}
 	}
 	b2 := s2.BuildWith(b1.Sealer, false)
-	second, rerr, p := sess.ClientSend(b2.Outer.Record())
+	sent = append(sent, b2.Outer.Record())
+	second, rerr, p := sess.ClientSend(sent[1])
 	if p != nil {
-		return "", p
+		return "", sent, p
 	}
 	sec := ""
 	if len(second) > 3 {
 		sec = fmt.Sprintf("%x", second[3:])
 	}
-	return out + fmt.Sprintf(" second=%s err=%s clientout=%x", sec, echx.ErrClass(rerr), sess.T.OutBytes()), nil
+	return out + fmt.Sprintf(" second=%s err=%s clientout=%x", sec, echx.ErrClass(rerr), sess.T.OutBytes()), sent, nil
 }
 
 // p256Key builds an ECH key whose config names DHKEM(P-256, HKDF-SHA256) (KEM id 0x0010), config id 42, all suites.
@@ -183,8 +192,11 @@ func variantOf(target string) string {
 }
 
 func Run(r *ev.Run) {
-	r.Rule("E1 exhaustive, differential: all ordered key lists of length 0..4 (with repetition) over the pool {T target (id 42), A other key same id same suites, B other key same id but suite list lacking the client's AEAD, C other id, D other id and other public name, E other key same id other public name, S T's own key pair in a second config with the same id and another public name, P a DHKEM(P-256) key with the same id (valid for crypto/tls, not usable by this library)}; T's config carries maximum_name_length 200 and a non-mandatory extension (not what the library's encoder would write) x 3 AEADs x {first hello, retried hello after HelloRetryRequest} x hello {encrypted to T, to a key U the server never holds, to T but with the outer server name of keys D/E, to T with the retried hello sealed at sequence number 2}; outcome(list) must equal outcome([T]) when T is in the list and outcome([]) otherwise; lists of 2-3 keys are also handed over as two WithKeys options at every split point, as sub-slices of one caller-owned array that must come back unmodified. distinct = distinct (list, aead, retry, target)")
+	r.Rule("E1 exhaustive, differential: all ordered key lists of length 0..4 (with repetition) over the pool {T target (id 42), A other key same id same suites, B other key same id but suite list lacking the client's AEAD, C other id, D other id and other public name, E other key same id other public name, S T's own key pair in a second config with the same id and another public name, P a DHKEM(P-256) key with the same id (valid for crypto/tls, not usable by this library)}; T's config carries maximum_name_length 200 and a non-mandatory extension (not what the library's encoder would write) x 3 AEADs x {first hello, retried hello after HelloRetryRequest} x hello {encrypted to T, to a key U the server never holds, to T but with the outer server name of keys D/E, to T with the retried hello sealed at sequence number 2}; outcome(list) must equal outcome([T]) when T is in the list and outcome([]) otherwise; lists of 2-3 keys are also handed over as two WithKeys options at every split point, as sub-slices of one caller-owned array that must come back unmodified. distinct = distinct (list, aead, retry, target). Round 13, histories of connections in one process: every sequence of 1..3 connections (quick: of three only those ending in a connection with correct pairs) over {lists of correct pairs in memory of their own, lists that pair a config with another key's or a malformed private key, lists of correct pairs in buffers the caller overwrites once the connection is over}, each history with key pairs of its own, x 3 AEADs x {first, retried hello} x hello to {T, U}: the outcome of every connection equals that of the same kind of list as the first connection of its keys in a process")
 	r.Assume("reference sender validated against crypto/tls (C03)", "all keys in a list are valid X25519 keys with well-formed configs")
+	// round 13: connections as histories in one process, each history with key material of its own (history.go); run first,
+	// while the process has made no connection at all
+	histories(r)
 	pool := "TABCDESP"
 	var lists []string
 	enum.Sequences(len(pool), 4, func(seq []int) {
